@@ -166,6 +166,15 @@ def handler(case):
         want = sum(Fraction(x - y) * FACT[c] for x, y, c in zip(a, b, (7, 6, 4, 3, 2, 1)))
         if secs(r.quantity, r.unit.value) != want:
             viols.append(("stamp.sub", f"TimeStamp{tuple(a)}-TimeStamp{tuple(b)} = {r}, expected {want} s"))
+        # the stamp's fields are public and read live (hour of day, printing): a stamp whose fields are assigned after construction
+        # (a stop time moved for a second run) is the stamp with those fields
+        with _Exact():
+            s2 = TimeStamp(*b)
+            for fld, val in zip(("year", "month", "day", "hour", "minute", "second"), a):
+                setattr(s2, fld, val)
+            r2 = s2 - TimeStamp(*b)
+        if secs(r2.quantity, r2.unit.value) != want:
+            viols.append(("stamp.sub-assigned", f"TimeStamp{tuple(b)} with its fields set to {tuple(a)} afterwards, minus TimeStamp{tuple(b)} = {r2}, expected {want} s"))
         return dict(ops=["time stampsub " + " ".join(str(x) for x in a + b)], impl=[tstr(r)], viols=viols,
                     nontrivial=("stampsub", tuple(i for i in range(6) if a[i] != b[i])), tag="stampsub")
     if k == "horizon":
